@@ -35,6 +35,7 @@ NEXT Next
 CONSTANTS
   Impl = {impl}
   SeededStrict = {seeded}
+  SeededRagged = {seeded_ragged}
   MaxC = 22
   MaxL = 6
   MaxCommits = 2
@@ -49,7 +50,7 @@ CHECK_DEADLOCK FALSE
 """
 ALL_PROPS = ["INVARIANT TypeOK", "INVARIANT NoAlias", "INVARIANT CacheCoherent", "PROPERTY Stable",
              "PROPERTY AppendOnly", "PROPERTY OnePerCommit", "INVARIANT AlignedHistory", "PROPERTY RejectedAppendsNothing"]
-ACTIONS = ["GetCurrent", "GetHistory", "GetHistoryIdx", "GetLastHistory", "GetHistoryLength", "ComputeLogw",
+ACTIONS = ["GetCurrent", "GetHistory", "GetHistoryRagged", "UpdateCurrentResized", "GetHistoryIdx", "GetLastHistory", "GetHistoryLength", "ComputeLogw",
            "SetCurrent", "SetCurrentHeld", "SetCurrentBeta", "UpdateCurrent", "Commit", "CommitStrict",
            "CommitStrictRejected", "UnsetCurrent", "ComputeResults",
            "ToDict", "MakeDict", "UpdateFromDict", "FromDict", "SaveState", "LoadState",
@@ -60,8 +61,8 @@ def B(x):
     return "TRUE" if x else "FALSE"
 
 
-def cfg(impl, maxops, record, getters, labels, populated=True, tags="{1}", props=None, seeded=False):
-    return CFG.format(impl=B(impl), seeded=B(seeded), tags=tags, maxops=maxops, record=B(record), getters=B(getters),
+def cfg(impl, maxops, record, getters, labels, populated=True, tags="{1}", props=None, seeded=False, seeded_ragged=False):
+    return CFG.format(impl=B(impl), seeded=B(seeded), seeded_ragged=B(seeded_ragged), tags=tags, maxops=maxops, record=B(record), getters=B(getters),
                       labels=B(labels), populated=B(populated), props="\n".join(ALL_PROPS if props is None else props))
 
 
@@ -135,6 +136,7 @@ AK = ("x", "logl")
 SHAPE = {"x": (3, 2), "logl": (3,)}
 SENT = -777.0           # what the caller scribbles
 NONE = (-2,)
+RAGGED = (-3,)
 IMPORT_OPS = ("update_from_dict", "from_dict", "load_state")
 SCRIBBLE_OPS = ("scribble", "scribble_list", "scribble_resdict")
 
@@ -151,8 +153,13 @@ class Inconclusive(Exception):
     pass
 
 
+def rows_of(t):
+    return 2 + t        # shape class t of the specification = a batch of 2 + t rows
+
+
 def decode(a):
-    """content of a batch array in the spec's terms: <<t>> (filled with t), <<0>> (scribbled), None -> <<-2>>"""
+    """content of a batch array in the spec's terms: <<t>> (filled with t), <<-10*t>> (a batch of shape
+    class t overwritten by the caller), None -> <<-2>>"""
     import numpy as np
 
     if a is None:
@@ -160,26 +167,58 @@ def decode(a):
     a = np.asarray(a)
     if a.size == 0:
         return ()
+    if a.dtype == object:
+        return (-96,)
     v = a.flat[0]
     if not (a == v).all():
         return (-99,)  # partially overwritten: matches nothing in the spec
     if v == SENT:
-        return (0,)
+        return (-10 * (a.shape[0] - 2),)
     return (int(v),) if float(v).is_integer() else (-98,)
 
 
 def decode_stack(a, key):
-    """content of a stacked/flattened history image: the sequence of batch contents"""
+    """content of a stacked history image (regular ndarray, or a container of batches): the sequence of
+    batch contents"""
     import numpy as np
 
     if a is None:
         return NONE
-    a = np.asarray(a)
+    if not (isinstance(a, np.ndarray) and a.dtype == object):
+        a = np.asarray(a)
     if a.size == 0:
         return ()
     if key == "beta":
-        return tuple(int(v) if v != SENT else 0 for v in a.ravel())
-    return tuple(c for b in a.reshape((-1,) + SHAPE[key]) for c in decode(b))
+        return tuple(int(v) if v != SENT else -10 for v in a.ravel())   # (-10: overwritten; beta = 1 in every such trace)
+    return tuple(c for b in a for c in decode(b))
+
+
+def walk(obj, out, np):
+    """every mutable object reachable from something handed out: ndarrays, lists, dicts - looking INSIDE
+    containers recursively (lists, tuples, dicts, object-dtype ndarrays)"""
+    if isinstance(obj, np.ndarray):
+        out.append(obj)
+        if obj.dtype == object:
+            for v in obj.ravel():
+                walk(v, out, np)
+    elif isinstance(obj, dict):
+        out.append(obj)
+        for v in obj.values():
+            walk(v, out, np)
+    elif isinstance(obj, (list, tuple)):
+        if isinstance(obj, list):
+            out.append(obj)
+        for v in obj:
+            walk(v, out, np)
+    return out
+
+
+def same_stack(st, bats, np):
+    """the stacked image (regular or container) holds exactly the per-index batches"""
+    try:
+        return len(st) == len(bats) and all(np.array_equal(np.asarray(st[i], dtype=float), b) for i, b in enumerate(bats))
+    except Exception:
+        return False
 
 
 class Replayer:
@@ -202,6 +241,8 @@ class Replayer:
         self.at = 0
         self.scribbles = 0
         self.nontrivial = False
+        self.raises = {}             # accessor -> times it raised ValueError for a ragged history (allowed)
+        self.returned_ragged = {}    # accessor -> times it returned something for a ragged history
 
     # ---- internal object graph
     def internals(self):
@@ -236,20 +277,7 @@ class Replayer:
         return False
 
     def flatten(self, obj, out):
-        """all mutable objects reachable from something handed out (arrays, lists, dicts)"""
-        np = self.np
-        if isinstance(obj, np.ndarray):
-            out.append(obj)
-        elif isinstance(obj, dict):
-            out.append(obj)
-            for v in obj.values():
-                self.flatten(v, out)
-        elif isinstance(obj, (list, tuple)):
-            if isinstance(obj, list):
-                out.append(obj)
-            for v in obj:
-                self.flatten(v, out)
-        return out
+        return walk(obj, out, self.np)
 
     def check_alias(self, objs, site, now_op):
         """objs: objects handed out by accessor `site` (or handed in through a copying entry point)."""
@@ -297,17 +325,33 @@ class Replayer:
                 raise Diverged("conform:get_current", f"get_current()[{k}] != get_current({k})")
         b = sm.get_current("beta")
         beta = 0 if b is None else int(b)
-        hist = {}
+        hist, ragged = {}, {}
         for k in AK:
-            st = g("get_history", sm.get_history(k))
-            n = len(st)
-            hk = tuple(decode(g("get_history", sm.get_history(k, index=i))) for i in range(n))
+            bats = []
+            while len(bats) < 16:
+                try:
+                    bats.append(g("get_history", sm.get_history(k, index=len(bats))))
+                except IndexError:
+                    break
+            n = len(bats)
+            hk = tuple(decode(b) for b in bats)
             hist[k] = hk
-            if decode_stack(st, k) != tuple(c for h in hk for c in h):
-                raise Diverged("conform:get_history", f"stacked history of {k} differs from per-index history")
+            ragged[k] = len({np.shape(b) for b in bats}) > 1
+            try:
+                st = g("get_history", sm.get_history(k))
+            except ValueError:
+                if not ragged[k]:
+                    raise
+                self.raises["get_history"] = self.raises.get("get_history", 0) + 1   # undefined for a ragged history
+                st = None
+            if st is not None:
+                if ragged[k]:
+                    self.returned_ragged["get_history"] = self.returned_ragged.get("get_history", 0) + 1
+                if not same_stack(st, bats, np):
+                    raise Diverged("conform:get_history", f"stacked history of {k} differs from per-index history")
             if n:
                 fl = g("get_history", sm.get_history(k, flat=True))
-                if decode_stack(fl, k) != tuple(c for h in hk for c in h):
+                if not (fl.shape == np.concatenate(bats).shape and np.array_equal(fl, np.concatenate(bats))):
                     raise Diverged("conform:get_history", f"flat history of {k} differs from per-index history")
             la = g("get_last_history", sm.get_last_history(k))
             if decode(la) != (hk[-1] if n else NONE):
@@ -317,18 +361,34 @@ class Replayer:
         if sm.get_history_length() != len(bhist):
             raise Diverged("conform:get_history_length", "length differs from the beta history")
         consistent = all(len(hist[k]) == len(bhist) for k in AK)
+        anyragged = any(ragged.values())
+        raw = None
         if consistent:
-            r = g("compute_results", sm.compute_results())
-            res = {k: decode_stack(r[k], k) for k in ("x", "logl", "beta")}
+            try:
+                r = g("compute_results", sm.compute_results())
+            except ValueError:
+                if not anyragged:
+                    raise
+                self.raises["compute_results"] = self.raises.get("compute_results", 0) + 1
+                r = None
             lw, _ = g("compute_logw_and_logz", sm.compute_logw_and_logz(1.0))
-            if r["logw"] is None:
-                res["logw"] = NONE
+            if r is None:
+                res = {k: RAGGED for k in ("x", "logl", "beta", "logw")}
             else:
-                same = r["logw"].shape == lw.shape and np.array_equal(r["logw"], lw, equal_nan=True)
-                res["logw"] = decode_stack(self.sm.get_history("logl"), "logl") if same else (-97,)
+                res = {k: decode_stack(r[k], k) for k in ("x", "logl", "beta")}
+                if r["logw"] is None:
+                    res["logw"] = NONE
+                else:
+                    same = r["logw"].shape == lw.shape and np.array_equal(r["logw"], lw, equal_nan=True)
+                    res["logw"] = tuple(c for h in hist["logl"] for c in h) if same else (-97,)
+                if anyragged:
+                    # defined by the implementation although the specification leaves it open: the value is
+                    # not compared with the spec (RAGGED), but it must be stable under caller overwrites
+                    self.returned_ragged["compute_results"] = self.returned_ragged.get("compute_results", 0) + 1
+                    raw, res = res, {k: RAGGED for k in ("x", "logl", "beta", "logw")}
         else:
             res = {k: NONE for k in ("x", "logl", "beta", "logw")}
-        view = {"cur": cur, "beta": beta, "hist": hist, "bhist": bhist, "res": res}
+        view = {"cur": cur, "beta": beta, "hist": hist, "bhist": bhist, "res": res, "raw": raw}
         if not self.impl_mode:
             self.check_alias_named(got, now_op)
         if cache_before is None:
@@ -360,7 +420,7 @@ class Replayer:
 
     # ---- caller-side construction
     def new(self, k, t):
-        return self.np.full(SHAPE[k], float(t))
+        return self.np.full((rows_of(t),) + SHAPE[k][1:], float(t))
 
     def locate(self, w, k2, i):
         if w == "cur":
@@ -392,6 +452,12 @@ class Replayer:
             free = [sm.get_current(None if k == "ALL" else k)]
         elif op == "get_history":
             free = [sm.get_history(k) if i == 0 else sm.get_history(k, flat=True) if i < 0 else sm.get_history(k, index=i - 1)]
+        elif op == "get_history_ragged":
+            try:
+                free = [sm.get_history(k)]
+                self.returned_ragged["get_history"] = self.returned_ragged.get("get_history", 0) + 1
+            except ValueError:
+                self.raises["get_history"] = self.raises.get("get_history", 0) + 1
         elif op == "get_last_history":
             free = [sm.get_last_history(k)]
         elif op == "get_history_length":
@@ -508,6 +574,8 @@ class Replayer:
             self.scribbles += 1
         else:
             raise RuntimeError(f"unknown op {op}")
+        if op == "get_history_ragged":
+            op = "get_history"
         site = {"compute_logw_and_logz": "compute_logw_and_logz", "update_current": "update_current", "set_current": "set_current"}.get(op, op)
         return self.flatten(free, []), site
 
@@ -549,7 +617,7 @@ class Replayer:
             self.steps += 1
             if self.impl_mode:
                 view, _ = self.observe()
-                if norm_view(view) != norm_view(want):
+                if norm_view(spec_view(view)) != norm_view(want):
                     raise Diverged("impl-mismatch", f"step {n} {op}: observed {view} / code-shaped spec {want}")
                 continue
             # (1) sharing relation: observed vs predicted by the intended semantics
@@ -568,7 +636,7 @@ class Replayer:
                 if op in SCRIBBLE_OPS and not l["cp"]:
                     raise Diverged("stable:" + site_pre, f"a getter raised {ex!r} after the caller overwrote an object obtained via {site_pre}")
                 raise Diverged("raised:getter-after-" + op, f"a getter raised {ex!r} after {op}")
-            if norm_view(view) != norm_view(want):
+            if norm_view(spec_view(view)) != norm_view(want):
                 what = f"step {n} ({fmt(l)}): accessors return {diff(view, want)}"
                 if op in SCRIBBLE_OPS and not l["cp"]:
                     raise Diverged("stable:" + site_pre, what + f" after the caller overwrote an object obtained via {site_pre}")
@@ -633,6 +701,10 @@ def core_failure(msg):
     return RuntimeError(msg)
 
 
+def spec_view(view):
+    return {k: v for k, v in view.items() if k != "raw"}
+
+
 def norm_view(v):
     def t(x):
         if isinstance(x, dict):
@@ -653,6 +725,8 @@ def diff(a, b):
     for k in ("beta", "bhist"):
         if norm_view(a[k]) != norm_view(b[k]):
             out.append(f"{k}={a[k]} (expected {b[k]})")
+    if norm_view(a.get("raw")) != norm_view(b.get("raw", a.get("raw"))):
+        out.append(f"results of the ragged history={a.get('raw')} (expected {b.get('raw')})")
     return "; ".join(out)
 
 
@@ -676,7 +750,7 @@ def replay_chunk(paths):
     from tempest.state_manager import StateManager
 
     tmp = tempfile.mkdtemp(prefix="c17_", dir=os.environ.get("VERIF_SCRATCH") or None)
-    out = {"viol": {}, "count": {}, "behaviours": 0, "steps": 0, "scribbles": 0, "nontrivial": 0, "inconclusive": 0, "explained_by_alias": 0, "light": 0}
+    out = {"viol": {}, "count": {}, "behaviours": 0, "steps": 0, "scribbles": 0, "nontrivial": 0, "inconclusive": 0, "explained_by_alias": 0, "light": 0, "raises": {}, "returned_ragged": {}}
 
     seen_here = set()
     verified = set()
@@ -721,6 +795,9 @@ def replay_chunk(paths):
             out["behaviours"] += 1
             out["steps"] += rp.steps - rp.light
             out["light"] += rp.light
+            for name in ("raises", "returned_ragged"):
+                for a, c in getattr(rp, name).items():
+                    out[name][a] = out[name].get(a, 0) + c
             out["scribbles"] += rp.scribbles
             out["nontrivial"] += 1 if rp.nontrivial else 0
     finally:
@@ -731,7 +808,7 @@ def replay_chunk(paths):
 def replay_all(paths, procs=8):
     paths = list(paths)
     if not paths:
-        return {"viol": {}, "count": {}, "behaviours": 0, "steps": 0, "scribbles": 0, "nontrivial": 0, "inconclusive": 0, "explained_by_alias": 0, "light": 0}
+        return {"viol": {}, "count": {}, "behaviours": 0, "steps": 0, "scribbles": 0, "nontrivial": 0, "inconclusive": 0, "explained_by_alias": 0, "light": 0, "raises": {}, "returned_ragged": {}}
     # contiguous chunks of the lexicographically sorted behaviours: siblings (shared prefixes) go to one worker
     # (raw texts of behaviours with a common prefix start with the same characters)
     paths.sort(key=lambda p: p if isinstance(p, str) else repr([lkey(e["l"]) for e in p]))
@@ -743,12 +820,15 @@ def replay_all(paths, procs=8):
     else:
         with mp.get_context("fork").Pool(procs) as pool:
             parts = pool.map(replay_chunk, chunks)
-    tot = {"viol": {}, "count": {}, "behaviours": 0, "steps": 0, "scribbles": 0, "nontrivial": 0, "inconclusive": 0, "explained_by_alias": 0, "light": 0}
+    tot = {"viol": {}, "count": {}, "behaviours": 0, "steps": 0, "scribbles": 0, "nontrivial": 0, "inconclusive": 0, "explained_by_alias": 0, "light": 0, "raises": {}, "returned_ragged": {}}
     for p in parts:
         for k in ("behaviours", "steps", "scribbles", "nontrivial", "inconclusive", "explained_by_alias", "light"):
             tot[k] += p[k]
         for k, n in p["count"].items():
             tot["count"][k] = tot["count"].get(k, 0) + n
+        for name in ("raises", "returned_ragged"):
+            for a, c in p[name].items():
+                tot[name][a] = tot[name].get(a, 0) + c
         for k, (what, ops) in p["viol"].items():
             if k not in tot["viol"] or (len(ops), ops) < (len(tot["viol"][k][1]), tot["viol"][k][1]):
                 tot["viol"][k] = (what, ops)
@@ -757,36 +837,54 @@ def replay_all(paths, procs=8):
 
 def facade_results(ck, cex_path):
     """Sampler.results() is the public face of compute_results(): drive the spec's shortest Stable
-    counterexample of the code-shaped semantics (one batch committed; results; overwrite; results) through it."""
+    counterexample of the code-shaped semantics (batches committed; results; overwrite; results) through it,
+    for a regular history and for a ragged one (batches of 3 and 4 particles)."""
     import numpy as np
     from tempest import Sampler
 
-    s = Sampler(lambda u: u, lambda x: -0.5 * float(np.sum(x ** 2)), n_dim=2, n_particles=8, random_state=0)
-    s.state.update_current({"x": np.full(SHAPE["x"], 1.0), "logl": np.full(SHAPE["logl"], 1.0), "beta": 1.0, "logz": 0.0})
-    s.state.commit_current_to_history()
-    r = s.results()
-    tags = {k: np.array(v, copy=True) for k, v in r.items() if isinstance(v, np.ndarray)}
-    internal = [v for v in (s.state._results_dict or {}).values() if isinstance(v, np.ndarray)]
-    internal += [v for lst in s.state._history.values() for v in lst if isinstance(v, np.ndarray)]
-    shared = r is s.state._results_dict or any(
-        isinstance(v, np.ndarray) and v.size and any(np.shares_memory(v, a) for a in internal) for v in r.values())
-    if shared:
-        ck.violation("alias:Sampler.results", "the dictionary / arrays returned by Sampler.results() are reachable from the sampler's internal state",
-                     {"ops": ["state.update_current", "state.commit_current_to_history", "Sampler.results()"], "spec_counterexample": cex_path})
-    for v in list(r.values()):
-        if isinstance(v, np.ndarray) and v.flags.writeable:
-            v.fill(SENT)
-    r.clear()
-    try:
-        r2 = s.results()
-        changed = sorted(k for k, v in tags.items() if k not in r2 or not np.array_equal(r2[k], v, equal_nan=True))
-    except Exception as ex:
-        changed = [repr(ex)]
-    if changed:
-        ck.violation("stable:Sampler.results", f"after the caller overwrote what Sampler.results() returned, results() differs in {changed}",
-                     {"ops": ["state.update_current", "state.commit_current_to_history", "r = Sampler.results()", "overwrite r", "Sampler.results()"],
-                      "spec_counterexample": cex_path})
-    return {"sampler_results_shared": bool(shared), "sampler_results_changed_keys": changed}
+    out = {}
+    for name, rows in (("regular", (3, 3)), ("ragged", (3, 4))):
+        s = Sampler(lambda u: u, lambda x: -0.5 * float(np.sum(x ** 2)), n_dim=2, n_particles=8, random_state=0)
+        for i, n in enumerate(rows):
+            s.state.update_current({"x": np.full((n, 2), 1.0 + i), "logl": np.full((n,), 1.0 + i), "beta": 1.0, "logz": 0.0})
+            s.state.commit_current_to_history()
+        ops = [f"state.update_current({n} rows); state.commit_current_to_history()" for n in rows]
+
+        def batches():
+            return {k: [np.array(s.state.get_history(k, index=i), copy=True) for i in range(len(rows))] for k in ("x", "logl")}
+
+        before = batches()
+        try:
+            r = s.results()
+        except ValueError:
+            if name != "ragged":
+                raise
+            out[name] = "raises ValueError (stacked image of a ragged history is undefined; not a violation)"
+            continue
+        found = walk(r, [], np)
+        arrays = [a for a in found if isinstance(a, np.ndarray)]
+        tags = {k: np.array(v, copy=True) for k, v in r.items() if isinstance(v, np.ndarray) and v.dtype != object}
+        internal = walk(s.state._results_dict, [], np) + walk(s.state._history, [], np) + walk(s.state._current, [], np)
+        internal = [a for a in internal if isinstance(a, np.ndarray) and a.size]
+        shared = r is s.state._results_dict or any(a.size and any(a is b or np.shares_memory(a, b) for b in internal) for a in arrays)
+        if shared:
+            ck.violation("alias:Sampler.results", f"the dictionary / arrays (containers looked into) returned by Sampler.results() are reachable "
+                         f"from the sampler's internal state ({name} history)", {"ops": ops + ["Sampler.results()"], "spec_counterexample": cex_path})
+        for a in arrays:
+            if a.flags.writeable and a.dtype != object:
+                a.fill(SENT)
+        r.clear()
+        changed = sorted(k for k, v in batches().items() if any(not np.array_equal(p, q) for p, q in zip(before[k], v)))
+        try:
+            r2 = s.results()
+            changed += sorted(k for k, v in tags.items() if k not in r2 or not np.array_equal(r2[k], v, equal_nan=True))
+        except Exception as ex:
+            changed.append(repr(ex))
+        if changed:
+            ck.violation("stable:Sampler.results", f"after the caller overwrote what Sampler.results() returned ({name} history), committed batches / results() differ in {changed}",
+                         {"ops": ops + ["r = Sampler.results()", "overwrite every array found in r", "re-read history and Sampler.results()"], "spec_counterexample": cex_path})
+        out[name] = {"shared": bool(shared), "changed": changed}
+    return out
 
 
 # --------------------------------------------------------------------------- the component part
@@ -822,6 +920,7 @@ def component_part(ck) -> dict:
         jobs["impl_" + prop.split()[1]] = dict(cfg=cfg(True, 6, True, False, True, props=[prop]), workers=2)
     for prop in ("INVARIANT AlignedHistory", "PROPERTY RejectedAppendsNothing"):
         jobs["seeded_" + prop.split()[1]] = dict(cfg=cfg(False, 6, True, False, True, props=[prop], seeded=True), workers=2)
+    jobs["seeded_ragged_NoAlias"] = dict(cfg=cfg(False, 6, True, True, True, props=["INVARIANT NoAlias"], seeded_ragged=True), workers=2)
     ths = [threading.Thread(target=job, args=(n,), kwargs=kw) for n, kw in jobs.items()]
     for t in ths:
         t.start()
@@ -868,6 +967,10 @@ def component_part(ck) -> dict:
             except Exception:
                 follows = False
             cex["SeededStrict:" + prop] = {"trace": [fmt(e["l"]) for e in path], "real_code_follows_seeded_spec": follows}
+        r = runs["seeded_ragged_NoAlias"]
+        if r.status != "violation" or r.violated != "NoAlias":
+            raise RuntimeError(f"seeded ragged-history variant does not violate NoAlias (status {r.status} {r.violated})")
+        cex["SeededRagged:NoAlias"] = {"trace": [fmt(e["l"]) for e in r.error_trace[-1][1]["path"]]}
         shutil.rmtree(tmp, ignore_errors=True)
         # ---- binding B: every enumerated / simulated behaviour on the real StateManager
         phase["counterexamples"] = round(time.time() - t0, 1)
@@ -899,6 +1002,11 @@ def component_part(ck) -> dict:
         "simulated_behaviours": len(simp),
         "evaluations": tot["steps"],
         "steps_of_verified_prefixes_driven_only": tot["light"],
+        "ragged_history_accessor_raised_ValueError": tot["raises"],
+        "ragged_history_accessor_returned": tot["returned_ragged"],
+        "ragged_note": "for a history whose batches have different sizes the stacked image is undefined: get_history(key) / "
+                       "compute_results() / Sampler.results() raising ValueError (the pinned behaviour) is recorded, NOT a violation; "
+                       "an accessor that returns instead is checked for sharing inside the containers it returns and for stability",
         "caller_overwrites": tot["scribbles"],
         "distinct_nontrivial": tot["nontrivial"],
         "inconclusive_optin_not_honoured": tot["inconclusive"],
